@@ -356,6 +356,9 @@ func (cc *grpcClientConn) Receive(msg any) error {
 	// This was probably an error converting the bytes to a message or an error
 	// reading from the network. We're going to return it to the
 	// user, but we also want to setResponseError so Send errors out.
+	if errors.Is(err, errSpecialEnvelope) {
+		err = newEndOfStreamError() // each call gets its own error value
+	}
 	cc.duplexCall.SetError(err)
 	return err
 }
